@@ -78,3 +78,35 @@ package mod
 //   (a shifting append `append(l[:i+1], l[i:]...)` moves existing entries: same backing array, excluded)
 //@   where appends-one-new-descriptor: len(add) == 1 && len(add[0].Data) >= 0 && add[0].MediaType == add[0].MediaType && $arr(add) != $arr(list)
 //@   requires inline-data-obtained-now: len(add[0].Data) == 0 || (caller.layer != nil && add[0].Data == $readBack) || (caller.layer == nil && add[0].Data == $childBody)
+
+// Diff-ids: while a layer is rewritten, the UNCOMPRESSED tar stream - whatever the compression of
+// the layer - is written through the digester digUC (the tar writer's sink is a MultiWriter ending
+// in digUC's hash), and when the rewrite changed the layer, the uncompressed digest recorded for
+// it (what dagPut copies into the config's diff_ids) is the digest digUC reports.
+//@ ghost $ucDig digest.Digest
+//@ ghost $ucDigTaken bool
+//@ ghost $rawDigTaken bool
+//@ func Apply$3
+//@   prop C13
+//@   entry-assume !$ucDigTaken && !$rawDigTaken
+//@   on-call Digest: $rawDigTaken = $rawDigTaken || recv == digRaw
+//@   on-call Digest: $ucDig = ite(recv == digUC, result, $ucDig)
+//@   on-call Digest: $ucDigTaken = $ucDigTaken || recv == digUC
+//@ callsite archive/tar.NewWriter(w)
+//@   prop C13
+//@   name tar.NewWriter/layer-rewrite
+//@   in ~/mod
+//@   infunc mod\.Apply\$3$
+//@   requires uncompressed-stream-hashed: $lastWriter(w) == $hashOf(caller.digUC)
+//@ fieldwrite ~/mod.dagLayer.ucDigest
+//@   prop C13
+//@   name dagLayer.ucDigest/layer-rewrite
+//@   in ~/mod
+//@   infunc mod\.Apply\$3$
+//@   requires is-the-uncompressed-digest: $ucDigTaken && v == $ucDig
+//@ callsite (*~.RegClient).BlobPut(ctx, r, d, rdr)
+//@   prop C13
+//@   name BlobPut/layer-rewrite
+//@   in ~/mod
+//@   infunc mod\.Apply\$3$
+//@   requires rewritten-layer-has-its-diff-id: $rawDigTaken ==> $ucDigTaken && caller.dl.ucDigest == $ucDig
